@@ -45,14 +45,46 @@ def source_text(tok):
     return SOURCES[tok]
 
 
-def props_text(cfg, flavour):
+# flavours in which an overriding value completely replaces the overridden one (object values are merged
+# key by key by occa::json, so both values of an object-valued input must use the same keys)
+OVERRIDE_SAFE = [0, 2]
+OTHER_TOKEN = {"a": "b", "b": "a"}
+OTHER_MODE = {"Serial": "OpenMP", "OpenMP": "Serial"}
+
+
+def _values(cfg, flavour, other=False):
     fl = FLAVOURS[flavour]
     d = {}
     for p, tok in cfg.items():
-        if p == "source" or tok == "e":
+        if p in ("source", "route") or tok == "e":
             continue
-        d[p] = fl[kind(p)][tok]
-    return json.dumps(d, sort_keys=True)
+        d[p] = fl[kind(p)][OTHER_TOKEN[tok] if other else tok]
+    return d
+
+
+def props_text(cfg, flavour, mode="Serial"):
+    """(build props text, device props text) that deliver the configuration's properties by its route."""
+    d = _values(cfg, flavour)
+    route = cfg.get("route", "flat")
+    dev = {}
+    if route == "flat":
+        props = d
+    elif route == "mode":
+        props = {"modes": {mode: d}}
+    elif route == "generic+mode":
+        props = dict(_values(cfg, flavour, other=True))
+        props["modes"] = {mode: d}
+    elif route == "othermode":
+        props = {"modes": {OTHER_MODE[mode]: d}}
+    elif route == "dev":
+        props, dev = {}, {"kernel": d}
+    elif route == "devmode":
+        props, dev = {}, {"kernel": {"modes": {mode: d}}}
+    elif route == "dev+flat":
+        props, dev = d, {"kernel": _values(cfg, flavour, other=True)}
+    else:
+        raise ValueError(route)
+    return json.dumps(props, sort_keys=True), json.dumps(dev, sort_keys=True)
 
 
 def fixed_env(env):
